@@ -88,6 +88,14 @@ def spread(rng, toks):
     """the same script as an unquoted shell command line would deliver it: every bracketed sub-script spread over several
     arguments (split at its blanks), so that a group may open and close several brackets in one argument"""
     out = []
+    glued = []
+    for t in toks:
+        # a bracketed sub-script ends with its closing bracket: the next token may follow in the same argument without a separator
+        if glued and glued[-1].startswith('[') and glued[-1].endswith(']') and '#' not in glued[-1] and bracket_balance(glued[-1]) == 0 and not t.startswith('#') and rng.random() < 0.15:
+            glued[-1] += t
+        else:
+            glued.append(t)
+    toks = glued
     for t in toks:
         if t.startswith('[') and ' ' in t and '#' not in t and '\n' not in t and '\t' not in t and '  ' not in t and rng.random() < 0.8:
             out += t.split(' ')
@@ -112,7 +120,21 @@ def bracket_balance(text):
 
 def join_args(toks):
     """Value::parse_args' documented rule: a bracketed sub-script may be spread over several arguments - they are collected,
-    joined by single blanks, until the brackets balance"""
+    joined by single blanks, until the brackets balance; an argument (group) that starts with a bracket is then read like the
+    inside of a bracket is: it may hold several tokens, each sub-script ending with its own closing bracket"""
+    out = []
+    for j in _join_args(toks):
+        if j.startswith('['):
+            try:
+                out += asm.split_body(j)
+                continue
+            except asm.AsmError:
+                pass
+        out.append(j)
+    return out
+
+
+def _join_args(toks):
     joined, acc = [], None
     for t in toks:
         if acc is not None:
@@ -244,7 +266,8 @@ def harness_worker(job):
                 sp = spread(rng, sq)
                 if sp != sq:
                     seqs.append(sp)
-            seqs += [['[[OP_1', 'OP_2]', 'OP_3]'], ['[[[OP_1', 'OP_2]', 'OP_3]', 'OP_4]', 'OP_5'], ['[OP_1', '[OP_2', 'OP_3]]'], ['[[OP_1]', 'OP_2]'], ['[OP_1', '[OP_2]', 'OP_3]']]
+            seqs += [['[OP_1][OP_2]'], ['[ab][cd]'], ['[OP_1', 'OP_2][OP_3]'], ['[OP_1]5'], ['[OP_1][OP_2][OP_3]', 'OP_4'], ['[[OP_1][OP_2]]'], ['[OP_1]OP_DUP'], ['[OP_1] [OP_2]'],
+                     ['[[OP_1', 'OP_2]', 'OP_3]'], ['[[[OP_1', 'OP_2]', 'OP_3]', 'OP_4]', 'OP_5'], ['[OP_1', '[OP_2', 'OP_3]]'], ['[[OP_1]', 'OP_2]'], ['[OP_1', '[OP_2]', 'OP_3]']]
         cmds = ['N c']
         for toks in seqs:
             cmds.append('VA ' + ' '.join(t.encode().hex() or '-' for t in toks))
